@@ -148,16 +148,19 @@ func main() {
 		if !l1.ok {
 			d.Obs = "rejected: " + l1.err
 			d.Shape = "rejected"
+			ctor := "mkRejected"
 			if strings.HasPrefix(l1.err, "PANIC") {
+				// not a round-trip matter: the model must predict the panic (agree); see notes
 				d.Shape = "load-panic"
-				meta.GoViol = append(meta.GoViol, gallina.GoViolation{ID: fmt.Sprint(id), Shape: d.Shape, What: "config.Load panicked: " + l1.err})
+				ctor = "mkPanicked"
+				meta.Hit("load-panic")
 			}
 			if broken == "" {
 				meta.Hit("rejected-unplanned")
 			} else {
 				meta.Hit("rejected-planned")
 			}
-			w.defs = append(w.defs, fmt.Sprintf("Definition %s : case := mkRejected %d d%d.", name, id, id))
+			w.defs = append(w.defs, fmt.Sprintf("Definition %s : case := %s %d d%d.", name, ctor, id, id))
 		} else {
 			if broken != "" {
 				meta.Hit("broken-but-accepted")
@@ -248,7 +251,7 @@ func main() {
 	for _, c := range corpus() {
 		emit(c.doc, c.name, "", map[string]bool{"corpus": true})
 	}
-	n := f.Count(280, 9000)
+	n := f.Count(230, 3000)
 	for i := 0; i < n; i++ {
 		r := gen.Fork(f.Seed, i)
 		g := &G{r: r, cls: map[string]bool{}}
@@ -307,6 +310,7 @@ func corpus() []corpusDoc {
 		{"lossy alertmanager.scheme", top("alerting", nM().set("alertmanagers", nQ(nM().set("scheme", nS("")))))},
 		{"lossy scrape.metrics_path", top("scrape_configs", nQ(sc().set("metrics_path", nS(""))))},
 		{"lossy scrape.scheme", top("scrape_configs", nQ(sc().set("scheme", nS(""))))},
+		{"alertmanagers-null-panic", top("alerting", nM().set("alertmanagers", nQ(nNull())))},
 		{"lossy external label dollar", nM().set("global", nM().ext("external_labels", nM().set("a", nS("x$$HOME_C49_UNSET")))).set("rule_files", nStrs("r.yml"))},
 	}
 }
